@@ -163,6 +163,8 @@ class StFn(Fn):
         if got != want_args: bad(call, "task call arguments changed: %s" % got)
         cb_args = [ast.unparse(x) for x in cb.args[1:]]
         if cb_args != kinds[cbname][1]: bad(cb, "callback arguments changed: %s" % cb_args)
+        if "{args}" in templ:
+            templ = templ.replace("{args}", " ".join(self.expr(x) for x in call.args))
         return "(let '(s__, id__) := spawn s__ %s in let a__ := a__ ++ [%s] in %s)" % (kinds[cbname][0], templ, self.block(rest, k, kc))
 
     def block(self, stmts, k, kc=None):
@@ -261,7 +263,7 @@ class StFn(Fn):
 
     def translate(self):
         params = self.spec["params"]
-        for p, t in params: self.env[p] = t
+        for p, t in params + self.spec.get("env_params", []): self.env[p] = t
         body = self.block(self.node.body, self.fall())
         ps = " ".join("(%s : %s)" % (p, coq_type(t)) for p, t in self.spec.get("env_params", []) + params)
         cs = " ".join("(%s : %s)" % (n, ty) for n, ty in self.spec.get("callee_params", []))
@@ -354,6 +356,36 @@ class SFn(StFn):
             return self.spec["calls"][e.func.id][1]
         return super().typeof(e)
 
+CLOSED_ENV = [("reencode_ignore", "str -> str"), ("ip6_check", "str -> option str"), ("handler", "str -> hres"), ("has_mw", "bool"),
+              ("has_upload", "bool"), ("peer_ip", "str"), ("peer_fp", "option str")]
+
+def closed_definitions(specs):
+    """cl_<m>: every translated method with its callee parameters instantiated by the (closed) translations of the
+    methods it calls - the call graph of the class, read off the `self._x(...)` calls the translator met.  All closed
+    definitions take the same seven environment parameters."""
+    meth2name = {}
+    for sp in specs:
+        for k, (n, _) in sp.get("callees", {}).items():
+            meth2name[k.split(".", 1)[1]] = n
+    by_name = {}
+    for sp in specs:
+        by_name[meth2name.get(sp["func"], sp["func"].strip("_"))] = sp
+    done, out = [], []
+    envs = " ".join("(%s : %s)" % e for e in CLOSED_ENV)
+    enva = " ".join(n for n, _ in CLOSED_ENV)
+    def emit(n, stack=()):
+        if n in done: return
+        if n in stack: raise Untranslatable("recursive call cycle through %s" % n)
+        sp = by_name[n]
+        for c, _ in sp.get("callee_params", []):
+            if c not in by_name: raise Untranslatable("callee %s of %s is not translated" % (c, n))
+            emit(c, stack + (n,))
+        args = ["(cl_%s %s)" % (c, enva) for c, _ in sp.get("callee_params", [])] + [e for e, _ in sp.get("env_params", [])]
+        out.append("Definition cl_%s %s := %s %s.\n" % (n, envs, sp["name"], " ".join(args)))
+        done.append(n)
+    for n in by_name: emit(n)
+    return "(* the class with its internal calls resolved *)\n" + "".join(out)
+
 def main(out_path):
     consts = int_consts("protocol/constants.py")
     consts["__status__"] = enum_values("protocol/status.py", "StatusCode")
@@ -371,8 +403,11 @@ def main(out_path):
         except Untranslatable as e:
             raise Untranslatable("server/protocol.py:%s: %s" % (spec["func"], e))
         chunks.append("\n")
+    import py2coq_server2
+    chunks.append(py2coq_server2.main(None))
+    chunks.append(closed_definitions(SPECS + py2coq_server2.SPECS2))
     open(out_path, "w").write("".join(chunks))
-    print("py2coq_server: %d methods translated" % len(SPECS))
+    print("py2coq_server: %d methods translated" % (len(SPECS) + len(py2coq_server2.SPECS2)))
 
 if __name__ == "__main__":
     try:
